@@ -265,6 +265,9 @@ class State:
         for f in path:
             if isinstance(v, BoxVal):      # Box internals (Unique / NonNull fields): still the same pointer
                 continue
+            if isinstance(v, dict) and '__union__' in v:
+                v = v['__union__']
+                continue
             v = v.fields[f] if isinstance(v, Enum) else v[f]
         return v
 
@@ -730,6 +733,9 @@ class Exec:
             return Enum('None', {})
         if tn == 'LengthError':
             return UNIT
+        m = re.fullmatch(r'([\w:]*Union)(::<.*>)? \{ (\w+): (.*) \}', t)
+        if m:      # a union literal: every field reads back the same bits
+            return {'__union__': s.operand(st, fr, m.group(4))}
         m = re.fullmatch(r'[\w:]+(::<.*>)? \{ (.*) \}', t)
         if m:
             return dict(enumerate(s.operand(st, fr, x.split(': ', 1)[1]) for x in split_top(m.group(2))))
@@ -1106,6 +1112,11 @@ class Exec:
             return R(UNIT)
         if re.search(r'size_of::<T>', c):
             return R(s.S)
+        ms = re.search(r'size_of::<(A|B)>$', c)
+        if ms:
+            if 'size_of_' + ms.group(1) not in s.consts:
+                s.consts['size_of_' + ms.group(1)] = mkint('size_of_' + ms.group(1))
+            return R(s.consts['size_of_' + ms.group(1)])
         if re.search(r'size_of::<GenericArray<T, N>>', c) or re.search(r'size_of::<Self>', c):
             return R(s.SZ)
         if re.search(r'needs_drop::<(\w+)>', c):
